@@ -8,6 +8,17 @@ harness/whitelist                   replays behaviours on white_list<N> (softwar
 import os
 import vlib
 
+PROPS = ["C26"]
+META = {"C26": {
+    "text": "TLC explores the whole WhiteList set model (N=3, 5 addresses); every operation sequence of the "
+            "generator model up to depth 3/4 plus random deep ones is replayed on the real software and "
+            "radio-backed white_list<N> classes and every recorded call (result + full observable state) is "
+            "validated by TLC against the set model.",
+    "note": "bounded N (2,3) and address universe (N+2); radio-backed variant checks forwarding to a stub radio "
+            "that implements the set; trusted: TLC, harness/whitelist, g++/ASan.",
+    "technique": "TLA+ model checking (TLC) + TLC-generated behaviours replayed on the real class + TLC trace validation",
+    "design_ref": "5.7"}}
+
 CONFIGS = [(2, 4), (3, 5)]      # (N, size of address universe)
 
 
